@@ -454,6 +454,118 @@ def store(kind: str, path: Path, items: list):
     return errs
 
 
+def file_keys(path: Path) -> list:
+    """the keys the file itself holds (UKVFile, no library object involved)"""
+    from molli.storage.ukvfile import UKVFile
+    with UKVFile(path, mode="r") as f:
+        return sorted(k.decode() for k in f.keys())
+
+
+def run_multi(libs: list, events: list):
+    """several libraries on DIFFERENT paths in one process, their sessions overlapping in time.
+       libs   = [(kind, path, version, bufsize, {key: object})]
+       events = [("open", li) | ("close", li) | ("put", li, key) | ("get", li, key) | ("keys", li)]
+    Returns the observations [(event index, event, result)]: result = deep-copied snapshot of the object read / sorted key
+    list / None / the exception raised."""
+    objs = []
+    for kind, path, version, bufsize, _ in libs:
+        new_library_file(kind, path, version)
+    obs, cms = [], {}
+    with hard_timeout(SESSION_TIMEOUT + 0.1 * len(events), "several libraries"):
+        handles = [lib_class(kind)(path, readonly=False, bufsize=bufsize) for kind, path, version, bufsize, _ in libs]
+        try:
+            for n, ev in enumerate(events):
+                op, li = ev[0], ev[1]
+                try:
+                    if op == "open":
+                        cms[li] = handles[li].writing(timeout=SESSION_TIMEOUT)
+                        cms[li].__enter__()
+                        res = None
+                    elif op == "close":
+                        cm = cms.pop(li)
+                        cm.__exit__(None, None, None)
+                        res = None
+                    elif op == "put":
+                        handles[li][ev[2]] = libs[li][4][ev[2]]
+                        res = None
+                    elif op == "get":
+                        res = copy.deepcopy(snapshot(handles[li][ev[2]]))
+                    else:
+                        res = sorted(handles[li].keys())
+                except HardTimeout:
+                    raise
+                except Exception as e:  # noqa: BLE001
+                    res = e
+                obs.append((n, ev, res))
+        finally:
+            for li, cm in list(cms.items()):
+                try:
+                    cm.__exit__(None, None, None)
+                except HardTimeout:
+                    raise
+                except Exception as e:  # noqa: BLE001
+                    obs.append((len(events), ("close", li), e))
+    return obs
+
+
+def run_iteration(kind: str, path: Path, version: int, items: dict, how: str, plan: dict, bufsize: int, in_writing: bool):
+    """a library holding `items` ({key: object}) is iterated - how = 'items' | 'keys' (for k in lib.keys(): lib[k]) |
+    'iter' (for k in lib: lib[k]) | 'values' - and between two steps other entries are looked up by key:
+    plan = {step number: [keys to look up after that step]}.
+    Returns ([(yielded key | None, snapshot | exception)], [(step, key, snapshot | exception)])."""
+    new_library_file(kind, path, version)
+    yielded, lookups = [], []
+
+    def snap(f):
+        try:
+            return copy.deepcopy(snapshot(f()))
+        except HardTimeout:
+            raise
+        except Exception as e:  # noqa: BLE001
+            return e
+
+    with hard_timeout(SESSION_TIMEOUT + 0.1 * len(items), "iteration"):
+        lib = lib_class(kind)(path, readonly=False, bufsize=bufsize)
+        keys = list(items)
+        half = len(keys) // 2 if in_writing else len(keys)
+        with lib.writing(timeout=SESSION_TIMEOUT):
+            for k in keys[:half]:
+                lib[k] = items[k]
+        with (lib.writing(timeout=SESSION_TIMEOUT) if in_writing else lib.reading(timeout=SESSION_TIMEOUT)):
+            for k in keys[half:]:
+                lib[k] = items[k]          # (writing session) some records may still wait in the write queue
+            try:
+                if how == "items":
+                    it = iter(lib.items())
+                elif how == "values":
+                    it = iter(lib.values())
+                elif how == "iter":
+                    it = iter(lib)
+                else:
+                    it = iter(list(lib.keys()))
+                step = 0
+                while True:
+                    try:
+                        x = next(it)
+                    except StopIteration:
+                        break
+                    if how == "items":
+                        k, o = x
+                        yielded.append((k, snap(lambda: o)))
+                    elif how == "values":
+                        yielded.append((None, snap(lambda: x)))
+                    else:
+                        yielded.append((x, snap(lambda: lib[x])))
+                    for lk in plan.get(step, []):
+                        lookups.append((step, lk, snap(lambda: lib[lk])))
+                    step += 1
+            except HardTimeout:
+                raise
+            except Exception as e:  # noqa: BLE001
+                yielded.append((None, e))
+    return yielded, lookups
+
+
 def raw_bytes(path: Path, keys: list) -> dict:
     """the stored bytes per key (UKVFile.get)"""
     from molli.storage.ukvfile import UKVFile
